@@ -137,6 +137,14 @@ fn yield_point() {
     la::set_window(w);
 }
 
+/// allocations and frees inside an operation are scheduling points as well (e.g. between the
+/// reference-count decrement of a conversion and the copy into the freshly allocated Vec)
+fn alloc_hook(_kind: u8) {
+    if CONTROLLED.load(Ordering::SeqCst) {
+        yield_point();
+    }
+}
+
 fn hook(phase: u8, ev: &pa::AtomicEv) {
     if phase == 0 {
         if CONTROLLED.load(Ordering::SeqCst) {
@@ -412,13 +420,15 @@ fn exec(w: &mut Worker, o: &Value) {
                             // the new exclusive owner mutates the buffer
                             la::set_window(1);
                             match s.h.as_mut().unwrap() {
+                                // (a different value: a copy that another thread is still making
+                                // from this storage becomes visible as wrong contents there)
                                 H::M(m) if !m.is_empty() => {
-                                    let x = m[0];
-                                    m[0] = x;
+                                    m[0] ^= 0x80;
+                                    s.exp[0] ^= 0x80;
                                 }
                                 H::V(v) if !v.is_empty() => {
-                                    let x = v[0];
-                                    v[0] = x;
+                                    v[0] ^= 0x80;
+                                    s.exp[0] ^= 0x80;
                                 }
                                 _ => {}
                             }
@@ -832,6 +842,7 @@ fn main() {
     LOG.lock().unwrap().reserve(1 << 16);
     LOCS.lock().unwrap().reserve(1 << 10);
     pa::set_hook(Some(hook));
+    la::set_alloc_hook(Some(alloc_hook));
     let text = std::fs::read_to_string(&programs).expect("read programs");
     let mut f = std::io::BufWriter::new(std::fs::File::create(&outp).expect("create out"));
     let mut out = String::new();
